@@ -1646,3 +1646,186 @@ Proof.
   - now apply names_eq_iff_no_sharing_tree.
   - destruct (params_once_sharing cf t H) as (_ & _ & A & B & _). auto.
 Qed.
+
+(* ====================================================================================== name collisions *)
+(* Parameter._realize with the proposed check: ValueError when the qualified name is already used by a
+   DIFFERENT Parameter object (`call_result true`); as read the earlier initializer is silently replaced
+   (`call_result false`).  Facts for EVERY tree (any names, sharing of parameters and sub-modules). *)
+
+Lemma NoDup_snoc : forall (A : Type) (l : list A) x, NoDup l -> ~ In x l -> NoDup (l ++ [x]).
+Proof.
+  induction l as [|y r IH]; intros x Hn Hx; simpl.
+  - constructor; [intros []|constructor].
+  - inversion Hn; subst. constructor.
+    + intro Hin. apply in_app_or in Hin as [Hin|[Hin|[]]]; [contradiction|]. subst. apply Hx. now left.
+    + apply IH; auto. intro Hin. apply Hx. now right.
+Qed.
+
+(* as read: never raises, the dict is `init_dict` (last write wins) *)
+Lemma realise_all_as_read : forall evs d,
+  realise_all false evs d = Returned (fold_left (fun d e => dict_set (snd e) (fst e) d) evs d).
+Proof. induction evs as [|[i n] r IH]; intros d; simpl; auto. Qed.
+
+(* checked: returns exactly when the names are pairwise different (and different from those present),
+   and then nothing was overwritten *)
+Lemma realise_all_checked : forall evs d, NoDup (map fst d) ->
+  (NoDup (map fst d ++ map snd evs) ->
+   realise_all true evs d = Returned (d ++ map (fun e => (snd e, fst e)) evs)) /\
+  (~ NoDup (map fst d ++ map snd evs) ->
+   exists n, realise_all true evs d = Raised n /\ In n (map snd evs)).
+Proof.
+  induction evs as [|[i n] r IH]; intros d Hd.
+  - simpl. rewrite !app_nil_r. split; [reflexivity|]. intro H. contradiction.
+  - cbn [realise_all map fst snd andb]. destruct (mem_str n (map fst d)) eqn:E.
+    + apply mem_str_In in E. split.
+      * intro Hn. exfalso. apply NoDup_remove_2 in Hn. apply Hn. apply in_or_app. now left.
+      * intros _. exists n. split; [reflexivity|now left].
+    + assert (Hnot : ~ In n (map fst d)) by (intro Hin; apply mem_str_In in Hin; congruence).
+      rewrite (dict_set_fresh n i d Hnot).
+      assert (Hd' : NoDup (map fst (d ++ [(n, i)]))).
+      { rewrite map_app. cbn [map fst]. now apply NoDup_snoc. }
+      destruct (IH (d ++ [(n, i)])%list Hd') as [IH1 IH2].
+      assert (Eapp : (map fst (d ++ [(n, i)]) ++ map snd r = map fst d ++ n :: map snd r)%list).
+      { rewrite map_app. cbn [map fst]. now rewrite <- app_assoc. }
+      rewrite Eapp in IH1, IH2. split.
+      * intro Hn. rewrite (IH1 Hn). now rewrite <- app_assoc.
+      * intro Hn. destruct (IH2 Hn) as [m [Hm Hin]]. exists m. split; [exact Hm|now right].
+Qed.
+
+Lemma init_dict_no_collision : forall cf t, collision_free cf t = true ->
+  init_dict cf t = map (fun e => (snd e, fst e)) (first_by_id [] (events cf false [] [] t)).
+Proof.
+  intros cf t H. unfold collision_free in H. apply nodup_strb_NoDup in H.
+  unfold init_dict. rewrite fold_dict_set_fresh; [reflexivity | exact H | intros k []].
+Qed.
+
+(* the two variants of the call, in terms of `collision_free` and `init_dict` *)
+Theorem call_result_spec : forall cf t,
+  call_result false cf t = Returned (init_dict cf t) /\
+  returns (call_result true cf t) = collision_free cf t /\
+  (collision_free cf t = true -> call_result true cf t = Returned (init_dict cf t)) /\
+  (collision_free cf t = false -> exists n, call_result true cf t = Raised n /\ In n (realised_names cf t)).
+Proof.
+  intros cf t. split; [apply realise_all_as_read|].
+  unfold call_result.
+  destruct (realise_all_checked (first_by_id [] (events cf false [] [] t)) [] (NoDup_nil _)) as [H1 H2].
+  cbn [map app] in H1, H2.
+  destruct (collision_free cf t) eqn:E.
+  - pose proof E as E'. unfold collision_free in E'. apply nodup_strb_NoDup in E'.
+    rewrite (H1 E'). cbn [app returns]. rewrite (init_dict_no_collision cf t E).
+    repeat split; auto. discriminate.
+  - assert (Hn : ~ NoDup (map snd (first_by_id [] (events cf false [] [] t)))).
+    { intro Hn. apply nodup_strb_NoDup in Hn. unfold collision_free in E. congruence. }
+    destruct (H2 Hn) as [n [Hr Hin]]. rewrite Hr. cbn [returns].
+    repeat split; auto; try discriminate. intros _. exists n. split; auto.
+    unfold realised_names.
+    assert (G : forall l seen, In n l -> ~ In n seen -> In n (dict_keys seen l)).
+    { induction l as [|y r IHl]; intros seen Hi Hs; simpl in *; [contradiction|].
+      destruct (mem_str y seen) eqn:Ey.
+      - destruct Hi as [->|Hi]; [apply mem_str_In in Ey; contradiction | auto].
+      - destruct (string_dec y n) as [->|Hne]; [now left|]. right. destruct Hi as [->|Hi]; [congruence|].
+        apply IHl; auto. intros [->|H']; auto. }
+    apply G; auto.
+Qed.
+
+(* (a) WITH THE CHECK: whenever the call returns, every Parameter object of the tree is an initializer
+   exactly once and no two objects share a name -- for every tree, whatever its names, with Parameter
+   objects or whole sub-modules shared (a ModuleList carrying parameters of its own excluded: never called) *)
+Theorem collision_check_fixed : forall cf t d, lp_okb t = true ->
+  call_result true cf t = Returned d ->
+  d = init_dict cf t /\ NoDup (map fst d) /\ map snd d = distinct_ids t /\ NoDup (distinct_ids t) /\
+  List.length d = List.length (distinct_ids t) /\
+  (forall i, In i (param_ids t) <-> In i (map snd d)) /\
+  map fst d = realised_names cf t.
+Proof.
+  intros cf t d Hl Hr.
+  destruct (call_result_spec cf t) as (_ & Hret & Hok & Hbad).
+  destruct (collision_free cf t) eqn:E.
+  - rewrite (Hok eq_refl) in Hr. inversion Hr; subst d. clear Hr.
+    pose proof E as E'. unfold collision_free in E'. apply nodup_strb_NoDup in E'.
+    destruct (realised_ids_distinct cf t Hl) as (Eid & Hnd & Hin).
+    rewrite (init_dict_no_collision cf t E), !map_map. cbn [fst snd].
+    fold (realised_ids cf t). rewrite map_length. repeat split.
+    + exact E'.
+    + exact Eid.
+    + now rewrite <- Eid.
+    + rewrite <- Eid. unfold realised_ids. now rewrite map_length.
+    + apply Hin.
+    + apply Hin.
+    + unfold realised_names. symmetry. apply dict_keys_id; [exact E' | intros x []].
+  - destruct (Hbad eq_refl) as [n [Hn _]]. rewrite Hn in Hr. discriminate.
+Qed.
+
+(* (c) under the hypotheses of the sharing theorems (hence of the positive theorems) no collision
+   happens: the check never fires, both variants return the same dict *)
+Theorem no_collision_tree : forall cf t, tree_sh_hyps cf t -> collision_free cf t = true.
+Proof.
+  intros cf t H. unfold collision_free. rewrite (realised_pairs_sh cf t H).
+  destruct H as (_ & _ & Hk & _ & _).
+  rewrite map_map. cbn [snd]. apply nodup_strb_NoDup.
+  unfold first_keys. rewrite <- (map_map fst (prefix (root_name t))).
+  exact (first_keys_nodup t (root_name t) Hk).
+Qed.
+
+Theorem check_never_fires_tree : forall cf t, tree_sh_hyps cf t ->
+  forall chk, call_result chk cf t = Returned (init_dict cf t).
+Proof.
+  intros cf t H chk. destruct (call_result_spec cf t) as (Hf & _ & Hok & _).
+  destruct chk; [apply Hok; now apply no_collision_tree | exact Hf].
+Qed.
+
+Theorem check_never_fires : forall cf s, program_sh_okb cf s = true ->
+  forall chk, call_result chk cf (construct cf s) = Returned (init_dict cf (construct cf s)).
+Proof. intros cf s H. apply check_never_fires_tree. now apply program_sh_ok_hyps. Qed.
+
+Theorem check_never_fires_okb : forall cf s, program_okb cf s = true ->
+  forall chk, call_result chk cf (construct cf s) = Returned (init_dict cf (construct cf s)).
+Proof. intros cf s H. apply check_never_fires. exact (proj1 (program_okb_sh cf s H)). Qed.
+
+(* --- (b) witnesses of the silent loss (as read) that the check turns into an error *)
+(* class A: self.bias = p1;  class B: self.bias = P2; self.scale = p1;  root: a = A(p1); self.b = B(p1); self.a = a.
+   p1 keeps the name "bias" of its first registration (in A); B is called first: P2 and p1 are both realised
+   as root.b.bias, P2 is lost (C18:naming:shared-parameter-name-collision) *)
+Definition w_collide_shared : mtree :=
+  MT KMod (Some "root") []
+     [("b", MT KMod (Some "b") [PE "bias" 2 "bias"; PE "scale" 1 "bias"] [] false);
+      ("a", MT KMod (Some "a") [PE "bias" 1 "bias"] [] false)] false.
+(* m = Leaf(); x = Box(a=m); y = Box(a=Leaf2(), b=m); root = Box("root", y=y, x=x): m keeps the name "a", is called
+   first through y.b and realised as root.y.a.w, which is the name of Leaf2's parameter (C18:naming:shared-submodule) *)
+Definition w_collide_submod : mtree :=
+  MT KMod (Some "root") []
+     [("y", MT KMod (Some "y") [] [("a", m_leaf "a" 1); ("b", m_leaf "a" 0)] false);
+      ("x", MT KMod (Some "x") [] [("a", m_leaf "a" 0)] false)] false.
+(* no sharing at all: two Parameter objects given the same explicit name *)
+Definition w_collide_explicit : mtree :=
+  MT KMod (Some "root") [PE "w" 0 "w"; PE "v" 1 "w"] [] false.
+
+Theorem silent_loss_refuted :
+  (* as read: the call returns, two objects registered, ONE initializer *)
+  lp_okb w_collide_shared = true /\ distinct_ids w_collide_shared = [2; 1] /\
+  call_result false cfg_fixed w_collide_shared = Returned [("root.b.bias", 1)] /\
+  call_result true cfg_fixed w_collide_shared = Raised "root.b.bias" /\
+  lp_okb w_collide_submod = true /\ distinct_ids w_collide_submod = [1; 0] /\
+  call_result false cfg_fixed w_collide_submod = Returned [("root.y.a.w", 0)] /\
+  call_result true cfg_fixed w_collide_submod = Raised "root.y.a.w" /\
+  distinct_ids w_collide_explicit = [0; 1] /\
+  call_result false cfg_pinned w_collide_explicit = Returned [("root.w", 1)] /\
+  call_result true cfg_pinned w_collide_explicit = Raised "root.w".
+Proof. vm_compute. repeat split; reflexivity. Qed.
+
+(* non-vacuity of (a): the call returns on a program with one Parameter object in every position
+   (legal weight tying: 11 registrations, 6 objects, 6 initializers), with the check on *)
+Example ex_shared_returns_checked :
+  call_result true cfg_fixed (construct cfg_fixed (ex_shared (Some "model"))) =
+  Returned [("model.scale", 0); ("model.layers.0.w", 1); ("model.layers.0.mlp.0.weight", 2);
+            ("model.layers.0.mlp.2.weight", 3); ("model.head.weight", 4); ("model.tail.weight", 5)] /\
+  lp_okb (construct cfg_fixed (ex_shared (Some "model"))) = true /\
+  List.length (sd_keys (construct cfg_fixed (ex_shared (Some "model")))) = 11.
+Proof. vm_compute. repeat split; reflexivity. Qed.
+(* ... and (a) also covers trees OUTSIDE the hypotheses of the sharing theorems on which the call returns:
+   the shared sub-module called first under another key (names are not state_dict keys, nothing is lost) *)
+Example ex_misnamed_returns_checked :
+  tree_sh_okb cfg_fixed w_submod_misnamed = false /\
+  call_result true cfg_fixed w_submod_misnamed = Returned [("root.y.a.w", 0)] /\
+  distinct_ids w_submod_misnamed = [0].
+Proof. vm_compute. repeat split; reflexivity. Qed.
